@@ -197,11 +197,12 @@ type Sorts struct {
 	fresh       int
 	typeIDs     map[string]int
 	uf          map[string]bool
+	sentinels   map[string]int
 }
 
 func NewSorts(mode Mode) *Sorts {
 	s := &Sorts{mode: mode, declared: map[string]bool{}, structNames: map[string]string{}, structTypes: map[string]*types.Struct{},
-		strConsts: map[string]string{}, heaps: map[string]string{}, typeIDs: map[string]int{}, uf: map[string]bool{}}
+		strConsts: map[string]string{}, heaps: map[string]string{}, typeIDs: map[string]int{}, uf: map[string]bool{}, sentinels: map[string]int{}}
 	s.decls = append(s.decls,
 		"(declare-sort Str 0)",
 		"(declare-fun strlen (Str) Int)",
